@@ -88,7 +88,10 @@ func runC20(c *Ctx) {
 							if ex, isE := d.(*ssa.Extract); isE && ex.Index == 0 {
 								if call, isC := ex.Tuple.(*ssa.Call); isC {
 									for _, f := range an.Facts(st) {
-										if empty, k := an.EmptinessFact(f, func(v ssa.Value) bool { cc := an.AllExtractOf(v, 1); return cc != nil && cc == ssa.CallInstruction(call) }); k && empty {
+										if empty, k := an.EmptinessFact(f, func(v ssa.Value) bool {
+											cc := an.AllExtractOf(v, 1)
+											return cc != nil && cc == ssa.CallInstruction(call)
+										}); k && empty {
 											okEdge = true
 										}
 									}
@@ -213,7 +216,10 @@ func runC20(c *Ctx) {
 					errIdx := vc.Call.Signature().Results().Len() - 1
 					nerr := 0
 					for _, e := range an.CondEdges(fn) {
-						if empty, k := an.EmptinessFact(e.Fact, func(v ssa.Value) bool { cc := an.AllExtractOf(v, errIdx); return cc != nil && cc == ssa.CallInstruction(vc) }); k && !empty {
+						if empty, k := an.EmptinessFact(e.Fact, func(v ssa.Value) bool {
+							cc := an.AllExtractOf(v, errIdx)
+							return cc != nil && cc == ssa.CallInstruction(vc)
+						}); k && !empty {
 							for b := range an.Reach(e.To, func(b *ssa.BasicBlock) bool { return len(b.Preds) > 1 }) {
 								for _, in := range b.Instrs {
 									if c2, ok := in.(*ssa.Call); ok && strings.HasSuffix(an.CalleeOf(c2).FullName(), "graphql.OperationContext).Error") && len(b.Preds) <= 1 {
